@@ -20,13 +20,13 @@ CFG = {"c1": {"max_calc_step_size_feet": 2.0}, "c2": {"max_calc_step_size_feet":
 DIST = {"d1": 100.0, "d2": 250.0}       # yards
 GRAPH = dict(Shots='{"s1", "s2", "s3"}', Calcs='{"c1", "c2"}', WeaponOf='[s1 |-> "w1", s2 |-> "w2", s3 |-> "w1"]',
              AmmoOf='[s1 |-> "a1", s2 |-> "a1", s3 |-> "a2"]', Distances='{"d1", "d2"}', Requests='{"plain", "extra", "timed"}',
-             Ops='{"Fire", "FireRaises", "ZeroRaises", "Danger", "Build", "EditTable", "FireBadTable", "Redisplay", "Zero"}')
+             Ops='{"Fire", "FireRaises", "ZeroRaises", "Danger", "Build", "EditTable", "FireBadTable", "Redisplay", "Zero"}', MaxEdits=2)
 # focused sub-alphabets enumerated EXHAUSTIVELY by TLC (every history of the given length): one calculator, one shot, the
 # operations that compute and the caller's in-place edit - every "computation / edit / computation" sandwich occurs
 FOCUS = [dict(Shots='{"s3"}', Calcs='{"c1"}', WeaponOf='[s3 |-> "w1"]', AmmoOf='[s3 |-> "a2"]', Distances='{"d1"}', Requests='{"plain"}',
-              Ops='{"Fire", "Zero", "Danger", "EditTable"}', DirtRule='"ignored"'),
+              Ops='{"Fire", "Zero", "Danger", "EditTable"}', DirtRule='"ignored"', MaxEdits=3),
          dict(Shots='{"s1"}', Calcs='{"c2"}', WeaponOf='[s1 |-> "w1"]', AmmoOf='[s1 |-> "a1"]', Distances='{"d2"}', Requests='{"extra"}',
-              Ops='{"Fire", "Zero", "EditTable", "Redisplay"}', DirtRule='"ignored"')]
+              Ops='{"Fire", "Zero", "EditTable", "Redisplay"}', DirtRule='"ignored"', MaxEdits=3)]
 
 
 class Pool:
@@ -88,16 +88,30 @@ class Pool:
             flip(q, salt + k)
         [m.loadMetricUnits, m.loadMixedUnits, m.loadImperialUnits, m.PreferredUnits.defaults][salt % 4]()
 
+    EDIT_KINDS = ("table", "powder", "dims", "mv")
+
+    def edit_kind(self, a, n=None):
+        n = self.content[a] if n is None else n
+        return self.EDIT_KINDS[(n + (1 if a == "a2" else 0)) % 4]
+
     def edit_table(self, a):
-        """the caller edits ammunition `a` IN PLACE - alternately its drag table (2 % more drag) and its powder-sensitivity
-        configuration (switch toggled, modifier assigned): the same objects, new content"""
-        am = self.ammos[a]
-        if (self.content[a] + (1 if a == "a2" else 0)) % 2 == 0:
+        """the caller edits ammunition `a` IN PLACE - in turn its drag table (2 % more drag), its powder-sensitivity
+        configuration (switch toggled, modifier assigned), the bullet dimensions of its drag model (spin drift / stability)
+        and its muzzle velocity: the same objects, new content"""
+        am, U = self.ammos[a], self.m.Unit
+        kind = self.edit_kind(a)
+        if kind == "table":
             for pnt in am.dm.drag_table:
                 pnt.CD = pnt.CD * 1.02
-        else:
+        elif kind == "powder":
             am.use_powder_sensitivity = not am.use_powder_sensitivity
             am.temp_modifier = am.temp_modifier * 1.5 + 0.015
+        elif kind == "dims":
+            am.dm.weight = U.Grain((am.dm.weight >> U.Grain) * 1.1 + 150.0)
+            am.dm.diameter = U.Inch((am.dm.diameter >> U.Inch) * 0.5 + 0.17)
+            am.dm.length = U.Inch((am.dm.length >> U.Inch) * 0.5 + 0.7)
+        else:
+            am.mv = U.FPS((am.mv >> U.FPS) * 0.97)
         self.content[a] += 1
 
     def zero_raw(self):
@@ -206,6 +220,7 @@ def replay_sessions(chk, behs):
             new = pool.snapshot()
             if e["a"] == "EditTable":
                 chk.stratum("table_edited_in_place")
+                chk.stratum("edit_kind_" + pool.edit_kind(pool.ammo_of[e["s"]], pool.content[pool.ammo_of[e["s"]]] - 1))
                 if {k_: v_ for k_, v_ in pool.content.items() if k_ in e["content"]} != e["content"]:
                     raise core.MachineryError("binding: table edit counts differ from the spec's")
             elif new["rest"] != snap["rest"]:
@@ -440,7 +455,7 @@ def run(chk: core.Check, replay=None) -> None:
             if e["a"] != "EditTable":
                 continue
             am = ammo_of[e["s"]]
-            k_ = (cnt[am] + (1 if am == "a2" else 0)) % 2
+            k_ = 0 if (cnt[am] + (1 if am == "a2" else 0)) % 4 == 0 else 1
             cnt[am] += 1
             if k_ != kind:
                 continue
@@ -474,7 +489,7 @@ def run(chk: core.Check, replay=None) -> None:
     chk.sample({"history": behs[0]})
     threads_part(chk, thorough, rng)
     chk.require_strata(["op_Fire", "op_FireRaises", "op_Zero", "op_ZeroRaises", "op_Danger", "op_Build", "op_EditTable", "op_FireBadTable",
-                        "table_edited_in_place", "edit_between_computations_on_one_calculator", "quantities_redisplayed_and_preferences_switched", "zero_written", "schedule", "schedule_equal_configurations", "schedule_different_configurations",
+                        "table_edited_in_place", "edit_kind_table", "edit_kind_powder", "edit_kind_dims", "edit_between_computations_on_one_calculator", "quantities_redisplayed_and_preferences_switched", "zero_written", "schedule", "schedule_equal_configurations", "schedule_different_configurations",
                         "free_running"])
     chk.exhaustive = False
     chk.rule.append("TLC-simulated session histories of 6 operations over 3 shots (shared weapon / shared ammunition, with and without "
